@@ -15,6 +15,8 @@ use poulpy_hal::{
     source::Source,
 };
 use proptest::prelude::*;
+use crate::spb::spw;
+use poulpy_bin_fhe::circuit_bootstrapping::CircuitBootstrappingKeyInfos;
 use pzv_be::{Be, FullBackend};
 use pzv_common::driver::{Ctx, Verdict};
 use serde::{Deserialize, Serialize};
@@ -70,6 +72,7 @@ fn mul_small(a: &[i64], b: &[i64]) -> Vec<i64> {
 fn run<B: FullBackend>(c: &TestContext<CGGI, B>, w: &Case) -> Verdict
 where
     ScratchOwned<B>: ScratchOwnedAlloc<B> + ScratchOwnedBorrow<B>,
+    poulpy_hal::layouts::Scratch<B>: poulpy_hal::api::ScratchFromBytes<B>,
 {
     let m = &c.module;
     let kind = w.kind as usize % KINDS.len();
@@ -100,9 +103,10 @@ where
             pt.raw_mut()[0] = bit;
             m.ggsw_encrypt_sk(&mut s, &pt, &c.sk_glwe, &sel_enc, &mut xe, &mut xa, scratch.borrow());
             let mut sp = m.ggsw_prepared_alloc_from_infos(&sel_infos);
-            m.ggsw_prepare(&mut sp, &s, scratch.borrow());
+            m.ggsw_prepare(&mut sp, &s, spw("ggsw_prepare", m.ggsw_prepare_tmp_bytes(&s), &mut scratch));
             let (mut ae, mut be_) = (enc_word(w.a, &mut xe, &mut xa, &mut scratch), enc_word(w.b, &mut xe, &mut xa, &mut scratch));
-            m.cswap(&mut ae, &mut be_, &sp, scratch.borrow());
+            let q_ = m.cswap_tmp_bytes(&ae, &be_, &sp);
+            m.cswap(&mut ae, &mut be_, &sp, spw("cswap", q_, &mut scratch));
             let (wa, wb) = if bit == 0 { (w.a, w.b) } else { (w.b, w.a) };
             let (ga, gb): (u32, u32) = (ae.decrypt(m, &c.sk_glwe, scratch.borrow()), be_.decrypt(m, &c.sk_glwe, scratch.borrow()));
             if (ga, gb) != (wa, wb) {
@@ -136,7 +140,8 @@ where
                     }
                 }
                 let mut res: GLWE<Vec<u8>> = GLWE::alloc_from_infos(&glwe_infos);
-                <poulpy_hal::layouts::Module<B> as GLWEBlindSelection<u32, B>>::glwe_blind_selection(m, &mut res, map, &kp, start, bits, scratch.borrow());
+                let q_ = <poulpy_hal::layouts::Module<B> as GLWEBlindSelection<u32, B>>::glwe_blind_selection_tmp_bytes(m, &res, &kp);
+                <poulpy_hal::layouts::Module<B> as GLWEBlindSelection<u32, B>>::glwe_blind_selection(m, &mut res, map, &kp, start, bits, spw("glwe_blind_selection", q_, &mut scratch));
                 m.glwe_decrypt(&res, &mut pt, &c.sk_glwe, scratch.borrow());
                 let got = pt.decode_coeff_i64(b13, 0);
                 let want = if present(idx) { (idx as i64 * 37 + 5) % 4096 } else { 0 };
@@ -148,12 +153,13 @@ where
                 let len = (1usize << bits) + (w.aux as usize % 3);
                 let data: Vec<u32> = (0..len).map(|i| w.a.wrapping_mul(i as u32 + 1) ^ w.b.rotate_left(i as u32)).collect();
                 let mut enc: Vec<FheUint<Vec<u8>, u32>> = data.iter().map(|v| enc_word(*v, &mut xe, &mut xa, &mut scratch)).collect();
-                m.glwe_blind_retrieval_statefull(&mut enc, &kp, start, bits, scratch.borrow());
+                let q_ = m.glwe_blind_retrieval_tmp_bytes(&enc[0], &kp);
+                m.glwe_blind_retrieval_statefull(&mut enc, &kp, start, bits, spw("glwe_blind_retrieval_statefull", q_, &mut scratch));
                 let got: u32 = enc[0].decrypt(m, &c.sk_glwe, scratch.borrow());
                 if got != data[idx] {
                     return fail("wrong-result", format!("retrieval from {len} words with index bits [{start}, {start}+{bits}) of {:#010x} = {idx}: element 0 decrypts to {got:#010x}, expected {:#010x}", w.k, data[idx]));
                 }
-                m.glwe_blind_retrieval_statefull_rev(&mut enc, &kp, start, bits, scratch.borrow());
+                m.glwe_blind_retrieval_statefull_rev(&mut enc, &kp, start, bits, spw("glwe_blind_retrieval_statefull_rev", q_, &mut scratch));
                 for (i, e) in enc.iter().enumerate() {
                     let g: u32 = e.decrypt(m, &c.sk_glwe, scratch.borrow());
                     if g != data[i] {
@@ -182,7 +188,8 @@ where
                 let mut kp: FheUintPrepared<DeviceBuf<B>, u32, B> = FheUintPrepared::alloc_from_infos(m, &ggsw_infos);
                 kp.encrypt_sk(m, kword, &c.sk_glwe, &ggsw_enc, &mut xe, &mut xa, scratch.borrow());
                 let mut res: FheUint<Vec<u8>, u32> = FheUint::alloc_from_infos(&glwe_infos);
-                retriever.retrieve(m, &mut res, enc, &kp, offset, scratch.borrow());
+                let q_ = GLWEBlindRetriever::retrieve_tmp_bytes(m, &res, &kp);
+                retriever.retrieve(m, &mut res, enc, &kp, offset, spw("glwe_blind_retriever_retrieve", q_, &mut scratch));
                 let got: u32 = res.decrypt(m, &c.sk_glwe, scratch.borrow());
                 if got != data[idx] {
                     return fail("wrong-result", format!("retrieval #{round} from {len} words with index {idx} (selector bits from {offset}): decrypts to {got:#010x}, expected {:#010x}", data[idx]));
@@ -224,9 +231,11 @@ where
                 let mut res = GLWE::alloc_from_infos(&glwe_infos);
                 if assign {
                     m.glwe_copy(&mut res, &a);
-                    <poulpy_hal::layouts::Module<B> as GLWEBlindRotation<B>>::glwe_blind_rotation_assign(m, &mut res, &kp, sign, rsh, mask, lsh, scratch.borrow());
+                    let q_ = <poulpy_hal::layouts::Module<B> as GLWEBlindRotation<B>>::glwe_blind_rotation_tmp_bytes(m, &res, &kp);
+                    <poulpy_hal::layouts::Module<B> as GLWEBlindRotation<B>>::glwe_blind_rotation_assign(m, &mut res, &kp, sign, rsh, mask, lsh, spw("glwe_blind_rotation_assign", q_, &mut scratch));
                 } else {
-                    <poulpy_hal::layouts::Module<B> as GLWEBlindRotation<B>>::glwe_blind_rotation(m, &mut res, &a, &kp, sign, rsh, mask, lsh, scratch.borrow());
+                    let q_ = <poulpy_hal::layouts::Module<B> as GLWEBlindRotation<B>>::glwe_blind_rotation_tmp_bytes(m, &res, &kp);
+                    <poulpy_hal::layouts::Module<B> as GLWEBlindRotation<B>>::glwe_blind_rotation(m, &mut res, &a, &kp, sign, rsh, mask, lsh, spw("glwe_blind_rotation", q_, &mut scratch));
                 }
                 let mut out: GLWEPlaintext<Vec<u8>> = GLWEPlaintext::alloc_from_infos(&glwe_infos);
                 m.glwe_decrypt(&res, &mut out, &c.sk_glwe, scratch.borrow());
@@ -250,14 +259,19 @@ where
                 let ggsw_enc = EncryptionLayout::new_from_default_sigma(ggsw_infos).unwrap();
                 let mut res: GGSW<Vec<u8>> = GGSW::alloc_from_infos(&ggsw_infos);
                 match form {
-                    0 => <poulpy_hal::layouts::Module<B> as GGSWBlindRotation<u32, B>>::scalar_to_ggsw_blind_rotation(m, &mut res, &tv, &kp, sign, rsh, mask, lsh, scratch.borrow()),
+                    0 => {
+                        let q_ = <poulpy_hal::layouts::Module<B> as GGSWBlindRotation<u32, B>>::scalar_to_ggsw_blind_rotation_tmp_bytes(m, &res, &kp);
+                        <poulpy_hal::layouts::Module<B> as GGSWBlindRotation<u32, B>>::scalar_to_ggsw_blind_rotation(m, &mut res, &tv, &kp, sign, rsh, mask, lsh, spw("scalar_to_ggsw_blind_rotation", q_, &mut scratch))
+                    }
                     f => {
                         let mut a: GGSW<Vec<u8>> = GGSW::alloc_from_infos(&ggsw_infos);
                         m.ggsw_encrypt_sk(&mut a, &tv, &c.sk_glwe, &ggsw_enc, &mut xe, &mut xa, scratch.borrow());
                         if f == 1 {
-                            <poulpy_hal::layouts::Module<B> as GGSWBlindRotation<u32, B>>::ggsw_blind_rotation(m, &mut res, &a, &kp, sign, rsh, mask, lsh, scratch.borrow());
+                            let q_ = <poulpy_hal::layouts::Module<B> as GGSWBlindRotation<u32, B>>::ggsw_to_ggsw_blind_rotation_tmp_bytes(m, &res, &kp);
+                            <poulpy_hal::layouts::Module<B> as GGSWBlindRotation<u32, B>>::ggsw_blind_rotation(m, &mut res, &a, &kp, sign, rsh, mask, lsh, spw("ggsw_blind_rotation", q_, &mut scratch));
                         } else {
-                            <poulpy_hal::layouts::Module<B> as GGSWBlindRotation<u32, B>>::ggsw_blind_rotation_assign(m, &mut a, &kp, sign, rsh, mask, lsh, scratch.borrow());
+                            let q_ = <poulpy_hal::layouts::Module<B> as GGSWBlindRotation<u32, B>>::ggsw_to_ggsw_blind_rotation_tmp_bytes(m, &a, &kp);
+                            <poulpy_hal::layouts::Module<B> as GGSWBlindRotation<u32, B>>::ggsw_blind_rotation_assign(m, &mut a, &kp, sign, rsh, mask, lsh, spw("ggsw_blind_rotation_assign", q_, &mut scratch));
                             res = a;
                         }
                     }
@@ -305,10 +319,11 @@ where
             // log_gap_in = log2(N) - log_domain for extension factor 1; the output gap may be any value up to it
             let log_gap_in = 8 - log_domain;
             let log_gap_out = (w.bit_start as usize) % (log_gap_in + 1);
+            let q_ = <poulpy_hal::layouts::Module<B> as poulpy_bin_fhe::circuit_bootstrapping::CircuitBootstrappingExecute<CGGI, B>>::circuit_bootstrapping_execute_tmp_bytes(m, cbt.block_size(), 1, &res, cbt);
             if exponent {
-                cbt.execute_to_exponent(m, log_gap_out, &mut res, &ct_lwe, log_domain, 1, scratch.borrow());
+                cbt.execute_to_exponent(m, log_gap_out, &mut res, &ct_lwe, log_domain, 1, spw("circuit_bootstrapping_execute_to_exponent", q_, &mut scratch));
             } else {
-                cbt.execute_to_constant(m, &mut res, &ct_lwe, log_domain, 1, scratch.borrow());
+                cbt.execute_to_constant(m, &mut res, &ct_lwe, log_domain, 1, spw("circuit_bootstrapping_execute_to_constant", q_, &mut scratch));
             }
             let n = m.n();
             let mut m2 = vec![0i64; n];
@@ -361,7 +376,7 @@ pub fn test(w: &Case) -> Verdict {
     with_ctx!(w.be, |c| run(c, w))
 }
 
-fn strategy() -> BoxedStrategy<Case> {
+pub fn strategy() -> BoxedStrategy<Case> {
     (prop_oneof![Just(Be::FftRef), Just(Be::FftAvx), Just(Be::NttRef)], 0u8..8, any::<u32>(), any::<u32>(), any::<u32>(), any::<u8>(), any::<u8>(), any::<u32>(), any::<u64>())
         .prop_map(|(be, kind, a, b, k, bit_start, bit_size, aux, seed)| Case { be, kind, a, b, k, bit_start, bit_size, aux, seed })
         .boxed()
